@@ -6,9 +6,10 @@ namespace RsslVerif.Lemmas.Roundtrip
 open RsslVerif.Gen.FmtTables RsslVerif.Gen.ParseTables RsslVerif.Model.Format RsslVerif.Model.Parse
 open RsslVerif.Lemmas.FmtParseTables
 
-/-- parser level of the production that builds the node -/
+/-- parser level of the production that builds the node (a negative literal is printed as a sign and a literal: what
+reads that text is the prefix production) -/
 def _root_.RsslVerif.Model.Format.Expr.lvl : Expr → Nat
-  | .lit _ => 0
+  | .lit l => if litNegative l then 2 else 0
   | .id _ => 0
   | .un op _ => if isPostfix op then 1 else 2
   | .bin op _ _ => binLevel op
@@ -30,6 +31,7 @@ theorem needParen_top_bin (op : BinOp) : needParen (binPrec op) topPrec topSide 
 theorem fmtSub_eq (e : Expr) (outer : Nat) (side : Side) :
     fmtSub e outer side = wrap (needParen e.prec outer side) (fmtBody e) := by
   cases e with
+  | lit l => simp only [fmtBody, fmtSub, Expr.prec, needParen_top_lit, wrap_false]
   | un op x => simp only [fmtBody, fmtSub, Expr.prec, needParen_top_un, wrap_false]
   | bin op l r => simp only [fmtBody, fmtSub, Expr.prec, needParen_top_bin, wrap_false]
   | _ => simp only [fmtBody, fmtSub, Expr.prec]; rfl
@@ -39,6 +41,7 @@ theorem binLevel_ge (op : BinOp) : 3 ≤ binLevel op := by cases op <;> decide
 
 theorem lvl_le (e : Expr) : e.lvl ≤ 15 := by
   cases e <;> simp [Expr.lvl]
+  · split <;> omega
   · split <;> omega
   · exact binLevel_le _
 
